@@ -121,6 +121,19 @@ def _run_base(ctx):
         wr = [c for c in calls_in(w) if isinstance(c.func, ast.Attribute) and c.func.attr == 'write' and c.args]
         if fname and wr:
             pairs[fname[0]] = dotted(wr[0].args[0])
+        elif wr:
+            # loop form:  for name, text in (('local', l), ('base', b), ('remote', r)): with open(join(td, name), 'w') as f: f.write(text)
+            lp = repo.enclosing(w, (ast.For,))
+            if lp is not None and isinstance(lp.target, ast.Tuple) and len(lp.target.elts) == 2 and isinstance(lp.iter, (ast.Tuple, ast.List)) and \
+                    all(isinstance(e, (ast.Tuple, ast.List)) and len(e.elts) == 2 for e in lp.iter.elts):
+                nvar, tvar = (dotted(e) for e in lp.target.elts)
+                used_n = any(isinstance(x, ast.Name) and x.id == nvar for x in ast.walk(w.items[0].context_expr))
+                if used_n and dotted(wr[0].args[0]) == tvar:
+                    for e in lp.iter.elts:
+                        if isinstance(const_val(e.elts[0]), str):
+                            pairs[const_val(e.elts[0])] = dotted(e.elts[1])
+    if not pairs:
+        raise AnalysisError('external_merge_render: the temp files written for the merge tool were not found')
     ok = {k: side_of(v) for k, v in pairs.items()} == {'local': 'local', 'base': 'base', 'remote': 'remote'}
     ctx.inst('R10.1', PP + ':external_merge_render', 'files %s' % pairs, ok,
              'each temp file holds the text of the side it is named after' if ok else 'a temp file holds another side\'s text', emr)
